@@ -19,8 +19,8 @@ META = ('zone', 'parameter', 'equipment', 'comment', 'axis', 'tool', 'process', 
 def strategy(draw):
     mode = draw(st.sampled_from(['distinct', 'shared', 'shared', 'partial', 'frames-only']))
     base = dict(vrl=[512, 8192], max_channels=3, max_rows=8, max_width=2, meta_kinds=META, max_meta=5, units=False,
-                max_origins=2, origin_position=('first', 'middle'), noformat=1, nf_payload_max=16,
-                hdr_variants=True, explicit_origin_refs=False)
+                max_origins=2, origin_position=('first', 'middle', 'last'), noformat=1, nf_payload_max=16,
+                hdr_variants=True, explicit_origin_refs=True)
     if mode == 'frames-only':
         prof = Profile(max_frames=4, max_lfs=1, **base)
     else:
